@@ -1,5 +1,5 @@
 CONSTANTS Budget = 6 NFuns = 3 Sim = TRUE Mode = "sim" MaxParams = 4 Rounds = 6 Focus = {}
-  Masked = {"none_lambda_annot", "call_gen_rec", "call_rec_labels", "late_use", "shade_c"}
+  Masked = {"none_lambda_annot", "call_gen_rec", "call_rec_labels", "late_use"}
 SPECIFICATION Spec
 INVARIANTS Closed BindersTyped BindersScoped SigsWellFormed Derivable GenericsAcyclic
 CHECK_DEADLOCK FALSE
